@@ -89,6 +89,11 @@ __gmp_doprnt_integer (const struct doprnt_funs_t *funs,
   /* the influence of p->prec on mpq is currently undefined */
   zeros = MAX (0, p->prec - slen);
 
+  /* C99: for o conversion, # increases the precision only if necessary to
+     make the first digit a zero */
+  if (zeros > 0 && showbaselen == 1)
+    showbaselen = 0;
+
   /* space left over after actual output length */
   justlen = p->width
     - (strlen(s) + signlen + showbaselen + den_showbaselen + zeros);
